@@ -436,7 +436,7 @@ func (env *SpecEnv) call(n *ECall) SVal {
 		if r == nil && len(v.V.Fs) == 4 {
 			r = v.V.Fs[0].T // slice: its backing array
 		}
-		return gBool(Ge(r, ab))
+		return gBool(And(Ge(r, ab), Lt(r, env.post.allocTerm())))
 	case "allocated":
 		v := env.eval(n.Args[0])
 		return gBool(And(Gt(v.V.T, IntLit(0)), Lt(v.V.T, env.pre.allocTerm())))
